@@ -38,7 +38,8 @@ package action
 //@   requires[base] validFees(feesInfo)
 //@   letold A = val(transferAmount)
 //@   loop 0 invariant[base] 0 <= idx && idx <= len(feesInfo) && fees != nil && !isnil(fees.Total)
-//@   loop 0 invariant[base] len(fees.Values) == nposUpTo(A, feesInfo, idx)
+//@   loop 0 invariant[base] len(fees.Values) <= idx
+//@   loop 0 invariant[C04]  len(fees.Values) == nposUpTo(A, feesInfo, idx)
 //@   loop 0 invariant[base] oneCoin5(fees.Values)
 //@   loop 0 invariant[C04]  !mulOvfUpTo(A, feesInfo, idx)
 //@   loop 0 invariant[C04]  val(fees.Total) == sumUpTo(A, feesInfo, idx)
